@@ -203,4 +203,106 @@ def wfShape : VariantShape → TVal → Bool
   | .struct_ fs, p => match p with | .struct_ xs => namesOK (fs.map (·.1)) && wfFields fs xs | _ => false
 end
 
+/-! ## the whole serialisable universe: `f32` members and `Value` members
+
+`valueOf` has no place for an `f32` (the serializer prints it with `ryu`'s binary32 digits, which is not the text of any
+`f64`): `valueOfL` puts the printed digits there as a number LITERAL (`JV.num (.lit …)`, whose image is the number with
+that text), so that `valueOfL r32 s v` is the JSON document `to_string` writes, for every schema. `wfTVx` is `wfTV` for the
+whole universe: an `f32` is finite, and a `Value` member is a value of the build (`Spec.WF.shapeOK c`: numbers as `Number`
+holds them, valid UTF-8, keys in the map's order). -/
+
+mutual
+/-- the document written for the typed value (`f32` members by their printed digits `r32`) -/
+def valueOfL (r32 : UInt32 → Bytes) : Schema → TVal → JV
+  | .bool, v => match v with | .bool b => .bool b | _ => .null
+  | .int _, v => match v with | .int n => intJV n | _ => .null
+  | .f64, v => match v with | .f64 b => .num (.float b) | _ => .null
+  | .f32, v => match v with | .f32 b => .num (.lit (r32 b)) | _ => .null
+  | .char, v => match v with | .char c => .str (Spec.Denote.utf8 c) | _ => .null
+  | .string, v => match v with | .str s => .str s | _ => .null
+  | .bytes, v => match v with | .bytes b => .arr (b.map fun x => .num (.pos x.toNat)) | _ => .null
+  | .option s, v => match v with | .some x => valueOfL r32 s x | _ => .null
+  | .unit, _ => .null
+  | .unitStruct, _ => .null
+  | .newtype s, v => valueOfL r32 s v
+  | .seq s, v => match v with | .seq xs => .arr (xs.map (valueOfL r32 s)) | _ => .null
+  | .tuple ss, v => match v with | .seq xs => .arr (valueTupleL r32 ss xs) | _ => .null
+  | .map k s, v => match v with | .map kvs => .obj (kvs.map fun kv => (keyText k kv.1, valueOfL r32 s kv.2)) | _ => .null
+  | .struct_ fs _, v => match v with | .struct_ xs => .obj (valueFieldsL r32 fs xs) | _ => .null
+  | .enum_ vs, v => match v with | .variant i p => valueVariantL r32 vs i p | _ => .null
+  | .ignored, _ => .null
+  | .any, v => match v with | .any j => j | _ => .null
+def valueTupleL (r32 : UInt32 → Bytes) : List Schema → List TVal → List JV
+  | s :: ss, xs => match xs with | x :: xs' => valueOfL r32 s x :: valueTupleL r32 ss xs' | [] => []
+  | [], _ => []
+def valueFieldsL (r32 : UInt32 → Bytes) : List (Bytes × Schema) → List TVal → List (Bytes × JV)
+  | (n, s) :: fs, xs => match xs with | x :: xs' => (n, valueOfL r32 s x) :: valueFieldsL r32 fs xs' | [] => []
+  | [], _ => []
+def valueVariantL (r32 : UInt32 → Bytes) : List (Bytes × VariantShape) → Nat → TVal → JV
+  | [], _, _ => .null
+  | (n, sh) :: vs, i, p => match i with | 0 => valueShapeL r32 n sh p | i' + 1 => valueVariantL r32 vs i' p
+def valueShapeL (r32 : UInt32 → Bytes) (n : Bytes) : VariantShape → TVal → JV
+  | .unit, _ => .str n
+  | .newtype s, p => .obj [(n, valueOfL r32 s p)]
+  | .tuple ss, p => match p with | .seq xs => .obj [(n, .arr (valueTupleL r32 ss xs))] | _ => .null
+  | .struct_ fs, p => match p with | .struct_ xs => .obj [(n, .obj (valueFieldsL r32 fs xs))] | _ => .null
+end
+
+mutual
+/-- well-formed typed values of the whole universe (`c`: the build, for `Value` members; `r32`: the `f32` printer, only for the
+    test "`Some(x)` with `x` printed as `null`", which does not depend on the digits) -/
+def wfTVx (c : Spec.Canon.Cfg) (r32 : UInt32 → Bytes) : Schema → TVal → Bool
+  | .bool, v => match v with | .bool _ => true | _ => false
+  | .int w, v => match v with | .int n => w.inRange n | _ => false
+  | .f64, v => match v with | .f64 b => finite64 b | _ => false
+  | .f32, v => match v with | .f32 b => finite32 b | _ => false
+  | .char, v => match v with | .char ch => isScalar ch | _ => false
+  | .string, v => match v with | .str s => Spec.Utf8.validUtf8 s | _ => false
+  | .bytes, v => match v with | .bytes _ => true | _ => false
+  | .option s, v => match v with
+    | .none => true
+    | .some x => wfTVx c r32 s x && !(valueOfL r32 s x == JV.null)
+    | _ => false
+  | .unit, v => match v with | .unit => true | _ => false
+  | .unitStruct, v => match v with | .unit => true | _ => false
+  | .newtype s, v => wfTVx c r32 s v
+  | .seq s, v => match v with | .seq xs => xs.all (wfTVx c r32 s) | _ => false
+  | .tuple ss, v => match v with | .seq xs => wfTupleX c r32 ss xs | _ => false
+  | .map k s, v => match v with | .map kvs => kvs.all fun kv => wfKey k kv.1 && wfTVx c r32 s kv.2 | _ => false
+  | .struct_ fs _, v => match v with | .struct_ xs => namesOK (fs.map (·.1)) && wfFieldsX c r32 fs xs | _ => false
+  | .enum_ vs, v => match v with | .variant i p => namesOK (vs.map (·.1)) && wfVariantX c r32 vs i p | _ => false
+  | .ignored, _ => false
+  | .any, v => match v with | .any j => Spec.WF.shapeOK c j | _ => false
+def wfTupleX (c : Spec.Canon.Cfg) (r32 : UInt32 → Bytes) : List Schema → List TVal → Bool
+  | s :: ss, xs => match xs with | x :: xs' => wfTVx c r32 s x && wfTupleX c r32 ss xs' | [] => false
+  | [], xs => xs.isEmpty
+def wfFieldsX (c : Spec.Canon.Cfg) (r32 : UInt32 → Bytes) : List (Bytes × Schema) → List TVal → Bool
+  | (_, s) :: fs, xs => match xs with | x :: xs' => wfTVx c r32 s x && wfFieldsX c r32 fs xs' | [] => false
+  | [], xs => xs.isEmpty
+def wfVariantX (c : Spec.Canon.Cfg) (r32 : UInt32 → Bytes) : List (Bytes × VariantShape) → Nat → TVal → Bool
+  | [], _, _ => false
+  | (_, sh) :: vs, i, p => match i with | 0 => wfShapeX c r32 sh p | i' + 1 => wfVariantX c r32 vs i' p
+def wfShapeX (c : Spec.Canon.Cfg) (r32 : UInt32 → Bytes) : VariantShape → TVal → Bool
+  | .unit, p => match p with | .unit => true | _ => false
+  | .newtype s, p => wfTVx c r32 s p
+  | .tuple ss, p => match p with | .seq xs => wfTupleX c r32 ss xs | _ => false
+  | .struct_ fs, p => match p with | .struct_ xs => namesOK (fs.map (·.1)) && wfFieldsX c r32 fs xs | _ => false
+end
+
+mutual
+/-- the `f32` members of a typed value (keys have none) -/
+def f32sOf : TVal → List UInt32
+  | .f32 b => [b]
+  | .some v | .variant _ v => f32sOf v
+  | .seq xs | .struct_ xs => f32sOfList xs
+  | .map kvs => f32sOfPairs kvs
+  | _ => []
+def f32sOfList : List TVal → List UInt32
+  | [] => []
+  | x :: r => f32sOf x ++ f32sOfList r
+def f32sOfPairs : List (TVal × TVal) → List UInt32
+  | [] => []
+  | (_, x) :: r => f32sOf x ++ f32sOfPairs r
+end
+
 end SJ.Model.TypedSer
